@@ -25,6 +25,8 @@ fn acts(full: bool) -> Vec<Act> {
         // instead of to the last entry handed out: equal unless COUNT cuts the delivery short), and COUNT 0
         vec!["XREADGROUP", "GROUP", "g", "c2", "COUNT", "1", "NOACK", "STREAMS", "s", ">"], vec!["XREADGROUP", "GROUP", "g", "c1", "COUNT", "0", "STREAMS", "s", ">"],
         vec!["XREADGROUP", "GROUP", "g", "c1", "STREAMS", "s", "0-0"], vec!["XREADGROUP", "GROUP", "g2", "c1", "STREAMS", "s", ">"],
+        // a call over several streams with a malformed id behind a good one: refused as a whole, nothing delivered, nothing pending
+        vec!["XREADGROUP", "GROUP", "g", "c1", "STREAMS", "s", "s", ">", "abc"],
         vec!["XACK", "s", "g", "1-1"], vec!["XACK", "s", "g", "1-1", "1-1"], vec!["XACK", "s", "g", "9-9"], vec!["XACK", "s", "g", "1-1", "2-1"],
         // ids in any order, one that is not pending (above every pending id, or below) listed first: every id is looked at
         vec!["XACK", "s", "g", "9-9", "1-1"], vec!["XACK", "s", "g", "3-1", "0-1", "1-1"], vec!["XCLAIM", "s", "g", "c2", "0", "9-9", "1-1"],
